@@ -10,10 +10,23 @@ From Ont Require Export Lib.CorrLib Model.Token.
 From Ont Require Model.Unbind.
 Local Open Scope Z_scope.
 
-Inductive outcome := ROk (b : bool) | RErr (e : err).
+Inductive outcome := ROk (b : bool) | RErr (e : err)
+| RSucc   (* succeeded, return value not observed (ledger mode) *)
+| RFail.  (* failed, error class not observed (ledger mode) *)
+
+(** Changed records of one call: [B a v] balance / offset record of [a] now holds [v], [BX a] it
+    was deleted; [A o s v] / [AX o s] likewise for allowances.  (Monomorphic constructors keep the
+    case files small and quick to elaborate.) *)
+Inductive bent := B (a : N) (v : Z) | BX (a : N).
+Inductive aent := A (o s : N) (v : Z) | AX (o s : N).
+(** What the implementation's storage looked like after a call: the changed records of the five
+    key families and, per family, the number of records and the sum of their values. *)
+Inductive delta := Delta (ont_b ong_b : list bent) (ont_a ong_a : list aent) (off : list bent) (digest : list Z).
+
+Inductive cstep := Step (k : call) (out : outcome) (d : delta).
 
 Inductive case :=
-| CSeq (net : N) (init : state) (steps : list (call * outcome * state)).
+| CSeq (net : N) (init : state) (steps : list cstep) (final : state).
 
 Definition err_eqb (a b : err) : bool :=
   match a, b with
@@ -26,6 +39,8 @@ Definition outcome_ok (r : res bool) (o : outcome) : bool :=
   match r, o with
   | Ok b, ROk b' => eqb b b'
   | Err e, RErr e' => err_eqb e e'
+  | Ok _, RSucc => true
+  | Err _, RFail => true
   | _, _ => false
   end.
 
@@ -50,17 +65,47 @@ Definition unbind_inst (d : Z) (balance s e : Z) : Z :=
 
 Definition deadline_of (net : N) : Z := Z.of_N (Unbind.holder_deadline net).
 
-Fixpoint replay (d : Z) (s : state) (steps : list (call * outcome * state)) : bool :=
+Definition bent_ok (m : amap addr) (e : bent) : bool :=
+  match e with
+  | B a v => match aget addr_eqb m a with Some v' => v' =? v | None => false end
+  | BX a => match aget addr_eqb m a with Some _ => false | None => true end
+  end.
+Definition aent_ok (m : amap (addr * addr)) (e : aent) : bool :=
+  match e with
+  | A o s v => match aget pair_eqb m (o, s) with Some v' => v' =? v | None => false end
+  | AX o s => match aget pair_eqb m (o, s) with Some _ => false | None => true end
+  end.
+Definition digest_of (s : state) : list Z :=
+  [Z.of_nat (length (ont_bal s)); asum (ont_bal s); Z.of_nat (length (ong_bal s)); asum (ong_bal s);
+   Z.of_nat (length (ont_allow s)); asum (ont_allow s); Z.of_nat (length (ong_allow s)); asum (ong_allow s);
+   Z.of_nat (length (offs s)); asum (offs s)].
+Fixpoint zlist_eqb (a b : list Z) : bool :=
+  match a, b with
+  | [], [] => true
+  | x :: r, y :: r' => (x =? y) && zlist_eqb r r'
+  | _, _ => false
+  end.
+Definition delta_ok (s : state) (d : delta) : bool :=
+  match d with
+  | Delta b1 b2 a1 a2 o dg =>
+      forallb (bent_ok (ont_bal s)) b1 && forallb (bent_ok (ong_bal s)) b2
+      && forallb (aent_ok (ont_allow s)) a1 && forallb (aent_ok (ong_allow s)) a2
+      && forallb (bent_ok (offs s)) o && zlist_eqb (digest_of s) dg
+  end.
+
+(** Replays the history in the model from the start state; after every call the model's state
+    must show the recorded changes and digests, at the end it must equal the full dump. *)
+Fixpoint replay (d : Z) (s : state) (steps : list cstep) (final : state) : bool :=
   match steps with
-  | [] => true
-  | (k, out, dump) :: r =>
+  | [] => state_equiv s final && inv_check final
+  | Step k out dl :: r =>
       let (s', res) := step (unbind_inst d) d s k in
-      outcome_ok res out && state_equiv s' dump && inv_check dump && replay d s' r
+      outcome_ok res out && delta_ok s' dl && inv_check s' && replay d s' r final
   end.
 
 Definition case_ok (c : case) : bool :=
   match c with
-  | CSeq net init steps => inv_check init && replay (deadline_of net) init steps
+  | CSeq net init steps final => inv_check init && replay (deadline_of net) init steps final
   end.
 
 Definition mismatches := mism case_ok.
